@@ -9,6 +9,7 @@ from props.C01 import frames_needed
 class C18(PropBase):
     id = 'C18'
     partial_passes = 0.25
+    rx_only_passes = 0.4
     lean_modules = ['Isotp.Props.C18']
     theorems = []
     rule = ('conversations between two normal peers (payload mixes, block sizes, link sizes, both directions) and malformed frame sequences, tapped '
